@@ -45,7 +45,8 @@ class StubBuilder:
 
 def u1_done_coordinates(src, nrec):
     ts = [src.zint(f"user_ts{i}", 0) for i in range(nrec)]
-    base = src.zint("base_offset", 0)
+    base = src.zint("base_offset", -1)  # -1: the broker did not say where the batch is (acknowledged duplicate)
+    unknown_offset = bool(base == -1)
     broker_ts_kind = src.choice("broker_timestamp", 2)  # 0: -1 (CreateTime), 1: LogAppendTime value
     broker_ts = -1 if broker_ts_kind == 0 else src.zint("log_append_time", 0)
     lso = None if src.flag("no_log_start_offset") else src.zint("log_start_offset", 0)
@@ -80,7 +81,11 @@ def u1_done_coordinates(src, nrec):
             continue
         md = f.result()
         src.check(md.topic == TP.topic and md.partition == TP.partition, "wrong topic/partition in RecordMetadata")
-        src.check(md.offset == base + i + (1 if src.twin else 0), f"record {i}: offset != base_offset + relative offset")
+        if unknown_offset:
+            src.check(md.offset == -1 - (1 if src.twin else 0),
+                      f"record {i}: the broker reported no offset (-1) but the result names offset {i - 1}, a coordinate of some other record")
+        else:
+            src.check(md.offset == base + i + (1 if src.twin else 0), f"record {i}: offset != base_offset + relative offset")
         if broker_ts_kind == 0:
             src.check(md.timestamp == ts[i], f"record {i}: CreateTime reply but timestamp is not the record's own timestamp")
             src.check(md.timestamp_type == 0, "timestamp_type should be CreateTime (0)")
@@ -222,7 +227,10 @@ def s1_futures(src, tasks_spec, max_requests, max_faults):
         log = {r[0]: r for r in prodsim.log_records(c, ("t", s["p"]))}
         src.check(md.partition == s["p"] and md.topic == "t", "wrong topic/partition in the result")
         if md.offset < 0:
-            continue  # DuplicateSequence without retained metadata
+            # DUPLICATE_SEQUENCE_NUMBER: the broker retained no metadata, so neither offset nor timestamp can be reported
+            src.check(cfg.get("dup46") and md.offset == -1, "result without an offset although the broker reported one",
+                      offset=md.offset, faults=faults, cfg=str(cfg))
+            continue
         rec = log.get(md.offset)
         ok = rec is not None and rec[1] == s["key"] and rec[2] == s["value"]
         if src.twin:
